@@ -663,7 +663,7 @@ class CryptoEngine:
             to_use = self.key_x
         elif xy == 'y':
             to_use = self.key_y
-        if isinstance(key, bytes):
+        if isinstance(key, (bytes, bytearray, memoryview)):
             # noinspection PyTypeChecker
             key = int.from_bytes(key, ('big' if keyslot > 0x03 else 'little'))
         if __debug__:
@@ -684,7 +684,8 @@ class CryptoEngine:
         """
         if __debug__:
             logger.debug('Setting keyslot %r type normal key %s', keyslot, key.hex())
-        self.key_normal[keyslot] = key
+        # an immutable copy: a bytearray would stay shared with the caller (and with every clone of this engine)
+        self.key_normal[keyslot] = bytes(key)
 
     def update_normal_keys(self):
         """
